@@ -371,26 +371,35 @@ Proof.
     + rewrite nfirstn_all, nskipn_all by lia. destruct u; reflexivity.
 Qed.
 
-Theorem set_path_ok dbg u p u' : wf_b u = true -> host_text_ok u -> has_authority_b u = true ->
+(* evaluation: for a non-opaque URL the result is the record with_path builds from the text
+   parse_path_start appends *)
+Lemma set_path_eval dbg u p u' : wf_b u = true -> byte_eqb (ser u) (scheme_end u + 1) 47 = true ->
   usv_list p -> auth_end_ok u -> set_path dbg u p = Some u' ->
-  wf_b u' = true /\ host_text_ok u' /\ same_front dbg u u'
-  /\ query dbg u' = query dbg u /\ fragment dbg u' = fragment dbg u
-  /\ exists P, path u' = Some P /\ new_path_ok P
-     /\ exists hh rem, parse_path_start dbg CSetter (scheme_type_of (nfirstn (scheme_end u) (ser u))) true
-                         (nfirstn (path_start u) (ser u)) p
-                       = POk (nfirstn (path_start u) (ser u) ++ P, hh, rem).
+  exists P hh rem, u' = with_path u P /\ new_path_ok P
+    /\ parse_path_start dbg CSetter (scheme_type_of (nfirstn (scheme_end u) (ser u))) true
+         (nfirstn (path_start u) (ser u)) p
+       = POk (nfirstn (path_start u) (ser u) ++ P, hh, rem).
 Proof.
-  intros W HT Ha Hp Hx H. unfold set_path in H. rewrite (take_after_path_eval u W) in H. cbn [bindo] in H.
-  pose proof (wf_auth_facts u W Ha) as F. destruct (wf_ps_le_path_end u W) as [B5 B6].
-  pose proof (af_ue F); pose proof (af_hs F); pose proof (af_he F); pose proof (af_ps F).
+  intros W Hsl Hp Hx H. unfold set_path in H. rewrite (take_after_path_eval u W) in H. cbn [bindo] in H.
+  destruct (wf_ps_le_path_end u W) as [B5 B6]. pose proof (wf_se_lt_ps u W) as B0.
   destruct (wf_scheme_facts u W) as (Hse & Hc & Hlt).
   set (pe := path_end u) in *. set (ps := path_start u) in *.
   assert (nlen (nfirstn pe (ser u)) = pe) as Lpe by (apply nlen_nfirstn; exact B6).
   (* cannot_be_a_base of the truncated record *)
   assert (cannot_be_a_base (set_ser u (nfirstn pe (ser u))) = Some false) as Ecbb.
   { unfold cannot_be_a_base, u_slice_from. cbn [ser set_ser scheme_end]. rewrite slice_from_o_some by lia. cbn [bindo].
-    pose proof Ha as Ha2. unfold has_authority_b in Ha2. apply css_bytes in Ha2. destruct Ha2 as (_ & C1 & _).
-    assert (nnth (nfirstn pe (ser u)) (scheme_end u + 1) = Some 47) as C1' by (rewrite nnth_nfirstn by lia; exact C1).
+    pose proof Hsl as C1. apply byte_eqb_nnth in C1.
+    assert (nnth (nfirstn pe (ser u)) (scheme_end u + 1) = Some 47) as C1'.
+    { destruct (N.lt_ge_cases (scheme_end u + 1) pe) as [Hlt1|Hge1].
+      - rewrite nnth_nfirstn by lia. exact C1.
+      - (* the path is empty: the byte at scheme_end + 1 would be '?' / '#' *)
+        exfalso. assert (pe = scheme_end u + 1) as Epe by lia.
+        pose proof (wf_qf_facts u W) as QF. pose proof (qf_q QF) as Q1. pose proof (qf_f QF) as Q2.
+        pose proof (nnth_lt _ _ _ C1). unfold pe, path_end in Epe.
+        destruct (query_start u) as [q|].
+        + destruct Q1 as (_ & Qb & _). apply byte_eqb_nnth in Qb. rewrite Epe in Qb. congruence.
+        + destruct (fragment_start u) as [f|]; [|lia].
+          destruct Q2 as (_ & Qb & _). apply byte_eqb_nnth in Qb. rewrite Epe in Qb. congruence. }
     rewrite (nskipn_cons_of_nnth _ _ _ C1'). reflexivity. }
   rewrite Ecbb in H. cbn [bindo] in H.
   assert (u_scheme_type (set_ser u (nfirstn pe (ser u))) = Some (scheme_type_of (nfirstn (scheme_end u) (ser u)))) as Est.
@@ -412,8 +421,24 @@ Proof.
   { pose proof (qf_qf (wf_qf_facts u W)) as Q3. unfold pe, path_end.
     destruct (query_start u), (fragment_start u); try exact I; lia. }
   rewrite !adjust_opt_ok in H by assumption. cbn [bindo] in H.
-  assert (u' = with_path u P) as ->.
-  { inversion H. unfold with_path. fold pe ps. rewrite Es1. rewrite nlen_app, Ls0. rewrite <- app_assoc. reflexivity. }
+  exists P, hh, rem. split; [|split; [split; assumption|rewrite <- Es1; reflexivity]].
+  inversion H. unfold with_path. fold pe ps. rewrite Es1. rewrite nlen_app, Ls0. rewrite <- app_assoc. reflexivity.
+Qed.
+
+Theorem set_path_ok dbg u p u' : wf_b u = true -> host_text_ok u -> has_authority_b u = true ->
+  usv_list p -> auth_end_ok u -> set_path dbg u p = Some u' ->
+  wf_b u' = true /\ host_text_ok u' /\ same_front dbg u u'
+  /\ query dbg u' = query dbg u /\ fragment dbg u' = fragment dbg u
+  /\ exists P, path u' = Some P /\ new_path_ok P
+     /\ exists hh rem, parse_path_start dbg CSetter (scheme_type_of (nfirstn (scheme_end u) (ser u))) true
+                         (nfirstn (path_start u) (ser u)) p
+                       = POk (nfirstn (path_start u) (ser u) ++ P, hh, rem).
+Proof.
+  intros W HT Ha Hp Hx H.
+  assert (byte_eqb (ser u) (scheme_end u + 1) 47 = true) as Hsl.
+  { pose proof Ha as Ha2. unfold has_authority_b in Ha2. apply css_bytes in Ha2. destruct Ha2 as (_ & C1 & _).
+    apply byte_eqb_true_iff. exact C1. }
+  destruct (set_path_eval dbg u p u' W Hsl Hp Hx H) as (P & hh & rem & -> & (HP1 & HP2) & Epp).
   splits.
   - apply wp_wf; assumption.
   - apply wp_host_text_ok; assumption.
@@ -421,7 +446,7 @@ Proof.
   - apply wp_query; assumption.
   - apply wp_fragment; assumption.
   - exists P. split; [apply wp_path; assumption|]. split; [split; assumption|].
-    exists hh, rem. rewrite <- Es1. reflexivity.
+    exists hh, rem. exact Epp.
 Qed.
 
 (* F-C02-8: set_path("//x") on an authority-less URL - outside the premise has_authority_b u = true *)
